@@ -19,6 +19,7 @@ type gInfo struct {
 	state string
 	lib   bool // has a frame in grpchan/inprocgrpc or grpchan/httpgrpc
 	harn  bool // is running the harness's stand-in for user code (handler, client actor)
+	pipe  bool // is parked in a read or write of an io.Pipe (only the library makes them: the request body of an HTTP stream)
 	top   string
 }
 
@@ -67,6 +68,7 @@ func goroutines() []gInfo {
 		// client actors are methods of callRun (package main); the in-memory
 		// HTTP transport is environment, not user code
 		g.harn = bytes.Contains(body, []byte("main.(*callRun)."))
+		g.pipe = bytes.Contains(body, []byte("io.(*pipe).read")) || bytes.Contains(body, []byte("io.(*pipe).write"))
 		if l := bytes.IndexByte(body, '\n'); l >= 0 {
 			g.top = string(body[:l])
 		}
